@@ -41,9 +41,9 @@ def pure_policy_stream(rep, drv, n):
 					 oracle=(py != want), theorem=THEOREM)
 
 
-def kernel_case(rep, drv, spec):
+def kernel_case(rep, drv, spec, net_objs=None):
 	"""Model's orderQty kernel evaluated on Python's own observed state vs the order Python placed."""
-	py = simlib.run_py(spec)
+	py = simlib.run_py(spec, net_objs=net_objs)
 	for fl in simlib.spec_flags(spec):
 		rep.count(fl)
 	if 'error' in py:
@@ -91,6 +91,38 @@ def kernel_case(rep, drv, spec):
 			what += ' | property predicate fails on the real code: ' + '; '.join(fails[:3])
 		rep.diff('order-kernel', what, spec, py={'diffs': diffs[:10], 'predicate_failures': fails[:10]}, oracle=bool(fails),
 				 theorem=THEOREM if not diffs else None)
+
+
+def shrink_case(rep, drv, rng, th):
+	"""Object life cycle: an echelon base-stock line is simulated, its customer-facing stage is then REMOVED from the network (the demand
+	moves to the stage above it) and the shortened line is simulated again: every stage still orders from the echelon position of the
+	network as it is NOW."""
+	import copy
+	from stockpyl.demand_source import DemandSource
+	for _ in range(20):
+		spec2 = simlib.gen_spec(rng, th, {'kind': 'serial', 'policy': 'EBS', 'pdis': 0})
+		if len(spec2['labels']) >= 3:
+			break
+	else:
+		return
+	srcs = {a for a, b in spec2['edges']}
+	sink = [l for l in spec2['labels'] if l not in srcs][0]
+	pred = [a for a, b in spec2['edges'] if b == sink][0]
+	if spec2['nodes'][str(pred)]['demand'] is not None:
+		return
+	py2 = simlib.run_py(spec2)
+	if 'error' in py2:
+		return
+	net, objs = py2['net'], py2['objs']
+	net.remove_node(objs[sink])
+	spec1 = copy.deepcopy(spec2)
+	spec1['labels'] = [l for l in spec2['labels'] if l != sink]
+	spec1['edges'] = [e for e in spec2['edges'] if sink not in e]
+	spec1['nodes'] = {k: v for k, v in spec1['nodes'].items() if k != str(sink)}
+	spec1['nodes'][str(pred)]['demand'] = list(spec2['nodes'][str(sink)]['demand'])
+	objs[pred].demand_source = DemandSource(type='D', demand_list=[simlib.num(x) for x in spec1['nodes'][str(pred)]['demand']])
+	rep.count('order-kernel:line-shortened-after-a-first-simulation')
+	kernel_case(rep, drv, spec1, net_objs=(net, {l: objs[l] for l in spec1['labels']}))
 
 
 def ebs_equiv(rep, drv, n, th):
@@ -194,6 +226,9 @@ def run(rep, drv):
 	# echelon base-stock in distribution systems (several downstream-most nodes, each with its own backorders)
 	for k in range(400 if th else 60):
 		kernel_case(rep, drv, simlib.gen_spec(rng, th, {'kind': 'distribution', 'policy': 'EBS', 'pdis': .3}))
+	rngs = random.Random(rep.seed * 5 + 404)
+	for k in range(150 if th else 25):
+		shrink_case(rep, drv, rngs, th)
 	ebs_equiv(rep, drv, 600 if th else 80, th)
 	mplib.run_mp_stream(rep, drv, 'C04', THEOREM + ' + Props/MP (ipMulti_single, earmark_bounds, rmOrders_sum)', 400 if th else 50, th, seed_off=14)
 
